@@ -19,7 +19,10 @@ OPS = ["downstream", "upstream_sum", "fillnodata(up)", "fillnodata(down,min)", "
        "errors"]
 RULE = ("random loop-free networks on rasters <= 56 cells (quick) / <= 400 (thorough): D8 networks from random "
         "DEMs and arbitrary forests, both classes (FlwdirRaster, Flwdir); fields = small random integers with "
-        "20-80% nodata cells (nodata in {-9999,-1,0}), windows n = 0..4, how in {min,max,sum}, weights incl. 0 "
+        "20-80% nodata cells (nodata in {-9999,-1,0}); downstream / upstream_sum also (40%) on integer fields of every "
+        "dtype int8..int64 / uint8..uint64 (half of them 64-bit) over the whole range of the dtype - values and sums at "
+        "the range ends, beyond 2**53 and (uint64) 2**63, one dominant + tiny inflows, mixed signs, mv at a range end or "
+        "the default - with every true (partial) sum inside the dtype, compared exactly as integers; windows n = 0..4, how in {min,max,sum}, weights incl. 0 "
         "and negative, all four (restrict_strord, strord) combinations, masks random / by upstream area, "
         "unit='m' on 3x4 cells, thresholds uparea**b with b in {0.3,0.5,1,2} (b=1: exact ties); smooth_rivlen: "
         "max_window 0..10, lengths = multiples of lcm(window sizes)^d from few levels (ties) or many, also on long "
@@ -143,8 +146,218 @@ def enlarge(ctx, rng, data, dt, n, nd=None, p=0.2):
     return [v if (nd is not None and v == nd) else base + v for v in data]
 
 
+WIDE_DTYPES = [np.int64, np.int64, np.int64, np.uint64, np.uint64, np.uint64, np.int32, np.uint32, np.int16, np.uint16,
+               np.int8, np.uint8]
+
+
+def exact_arr(N, vals, dtype):
+    """integer field of the given dtype holding exactly `vals` (python ints of any magnitude the dtype can hold)"""
+    a = np.array([int(v) for v in vals], dtype=dtype).reshape(N.shape)
+    assert a.dtype == np.dtype(dtype) and a.ravel().tolist() == [int(v) for v in vals], "harness: field not representable"
+    return a
+
+
+def _any_value(rng, lo, hi, bits):
+    """a value anywhere in [lo, hi]: the range ends, around powers of two (2**24, 2**31, 2**53, 2**63 ...), random widths"""
+    u = rng.random()
+    if u < 0.2:
+        v = rng.choice([lo, lo + 1, hi, hi - 1, hi // 2, hi // 2 + 1])
+    elif u < 0.45:
+        v = (1 << rng.randint(1, bits)) + rng.randint(-3, 3)
+        v = -v if (lo < 0 and rng.random() < 0.5) else v
+    elif u < 0.85:
+        v = rng.getrandbits(rng.randint(1, bits))
+        v = -v if (lo < 0 and rng.random() < 0.5) else v
+    else:
+        v = rng.randint(lo, hi)
+    return min(max(v, lo), hi)
+
+
+def gen_wide_field(ctx, rng, N, dt, nd, p_nd):
+    """Integer field that uses the WHOLE range of dtype `dt` (int8 ... int64, uint8 ... uint64; for the 64-bit types far
+    beyond the 53 bits a binary64 holds) such that every sum over the direct upstream cells of a cell - and every
+    partial sum, in any order, also on top of the missing value a flagged cell holds - still fits the dtype: per cell j
+    with k inflowing cells a total magnitude T_j <= max(dtype) - |nd| - k is drawn (at the range end / log-uniform /
+    random width / small) and split into k parts (random cuts; uniform, or one dominant part) with one common or (signed
+    types) mixed signs. Cells whose value enters no sum (pits, cells outside the network) take any value of the range
+    incl. both ends. Returns python ints; guard asserted."""
+    info = np.iinfo(dt)
+    lo, hi, bits = int(info.min), int(info.max), int(info.bits) - (1 if info.min < 0 else 0)
+    n = N.n
+    inflow = [[] for _ in range(n)]
+    for i, d in enumerate(N.ds):
+        if d != n and d != i:
+            inflow[d].append(i)
+    data = [None] * n
+
+    def avoid(v):
+        # a value that is not the missing value, moved towards zero (keeps every magnitude bound)
+        if v != nd:
+            return v
+        if v > 0:
+            return v - 1
+        if v < 0:
+            return v + 1
+        return 1
+    style = rng.choice(["end", "end", "log", "log", "width", "mixed-styles", "small"])
+    for j in range(n):
+        U = inflow[j]
+        k = len(U)
+        if k == 0:
+            continue
+        B = hi - abs(nd) * (1 if p_nd > 0 else 0) - k      # budget for sum |v|; k spare for the steps `avoid` may add
+        B = max(B, 0)
+        st = style if style != "mixed-styles" else rng.choice(["end", "log", "width", "small"])
+        if st == "end":
+            T = max(B - rng.choice([0, 0, 1, 2, rng.randint(0, 1000)]), 0)
+        elif st == "log":
+            T = min(B, rng.randint(1 << (bits - 1), 1 << bits) >> rng.randint(0, max(bits - 50, 3) if bits > 53 else bits - 1))
+        elif st == "width":
+            T = min(B, rng.getrandbits(rng.randint(1, bits)))
+        else:
+            T = min(B, rng.randint(0, 40))
+        # split T into k non-negative parts
+        if k == 1:
+            parts = [T]
+        else:
+            if rng.random() < 0.5:
+                cuts = sorted(rng.randint(0, T) for _ in range(k - 1))
+            else:       # one dominant part, the others comparatively tiny (they vanish in a rounded accumulation)
+                small = min(T, 1 << rng.randint(1, 12))
+                cuts = sorted(rng.randint(0, small) for _ in range(k - 1))
+            parts = [b - a for a, b in zip([0] + cuts, cuts + [T])]
+            rng.shuffle(parts)
+        if lo < 0:
+            sg = rng.choice(["+", "-", "mixed"])
+            parts = [p if sg == "+" else -p if sg == "-" else rng.choice([p, -p]) for p in parts]
+        for u, p in zip(U, parts):
+            data[u] = avoid(p)
+    for i in range(n):
+        if data[i] is None:
+            data[i] = avoid(_any_value(rng, lo, hi, bits))
+        if p_nd > 0 and rng.random() < p_nd:
+            data[i] = nd
+    # the guard (declarative): on top of a missing value, all magnitudes flowing into one cell fit the dtype
+    for j in range(n):
+        tot = sum(abs(data[u]) for u in inflow[j] if data[u] != nd) + (abs(nd) if p_nd > 0 else 0)
+        assert tot <= hi, "harness: wide field outside the no-wrap domain"
+    assert all(lo <= v <= hi for v in data)
+    return data
+
+
+def wide_nodata(rng, dt, p_nd):
+    """missing value for a wide field: representable in the dtype; at a range end only for fields without empty cells
+    (a flagged cell accumulates later inflows on top of it)"""
+    info = np.iinfo(dt)
+    lo, hi = int(info.min), int(info.max)
+    cand = [0, 1, rng.randint(lo // 2, hi // 2)]
+    if lo < 0:
+        cand += [-1]
+    if lo <= -9999:
+        cand += [-9999, -9999]
+    if p_nd == 0:
+        cand += [lo, hi, hi]
+    return rng.choice(cand)
+
+
 # ---------------------------------------------------------------------------------------------
+def case_downstream_wide(ctx, rng, N):
+    """downstream on fields of every integer dtype over its whole range (64-bit: beyond 2**53 / 2**63), and on float
+    fields holding large exactly representable integers: the operator copies, so every value must arrive unchanged"""
+    if rng.random() < 0.75:
+        dt = rng.choice(WIDE_DTYPES)
+        info = np.iinfo(dt)
+        lo, hi, bits = int(info.min), int(info.max), int(info.bits) - (1 if info.min < 0 else 0)
+        data = [_any_value(rng, lo, hi, bits) for _ in range(N.n)]
+        field = exact_arr(N, data, dt)
+    else:
+        dt = rng.choice([np.float64, np.float32])
+        data = [int(dt(_any_value(rng, -2 ** 100, 2 ** 100, 100))) for _ in range(N.n)]
+        field = np.array([float(v) for v in data], dtype=dt).reshape(N.shape)
+        assert exact_ints(field) == data
+    out = N.flw.downstream(field)
+    impl = exact_ints(out)
+    same_dtype = out.dtype == field.dtype
+    ctx.count("op:downstream(wide:" + np.dtype(dt).name + ")")
+    ctx.count("downstream:result-dtype-" + ("same" if same_dtype else "differs(observed)"))
+
+    def judge(ans):
+        e = drv_err(ans)
+        if e:
+            return e
+        fs = []
+        if impl is None:
+            return [{"kind": "spec", "what": "downstream: non-integer output"}]
+        # own oracle, exact python ints: value of the downstream cell (the cell's own outside the network / at pits)
+        want = [data[N.ds[i]] if N.ds[i] != N.n else data[i] for i in range(N.n)]
+        bad = [i for i in range(N.n) if impl[i] != want[i]]
+        if bad:
+            fs.append({"kind": "spec", "what": f"downstream({np.dtype(dt).name}): not the value of the downstream cell at cells {bad[:6]}",
+                       "impl": impl, "expected": want})
+        cmp_eq(fs, impl, ans[0], "downstream")
+        return fs
+    ctx.add({"op": "downstream", **N.base, "data": data, "dtype": np.dtype(dt).name},
+            [("c14_downstream", {"ds": N.ds, "data": data})], judge, nontrivial=N.nontriv)
+
+
+def case_upstream_sum_wide(ctx, rng, N):
+    """upstream_sum on integer fields over the whole range of their dtype, every true sum inside the dtype; compared
+    exactly (python ints / Lean Int) with the sum over the direct upstream cells"""
+    dt = rng.choice(WIDE_DTYPES)
+    p_nd = rng.choice([0.0, 0.0, 0.0, 0.1, 0.3])
+    nd = wide_nodata(rng, dt, p_nd)
+    data = gen_wide_field(ctx, rng, N, dt, nd, p_nd)
+    field = exact_arr(N, data, dt)
+    default_mv = nd == -9999 and rng.random() < 0.5      # the documented default of the `mv` argument
+    out = N.flw.upstream_sum(field) if default_mv else N.flw.upstream_sum(field, mv=nd)
+    impl = exact_ints(out)
+    name = f"upstream_sum({np.dtype(dt).name})"
+    # own oracle (exact): sum over the direct upstream cells (those that hold a value)
+    want = [0] * N.n
+    for i, d in enumerate(N.ds):
+        if d != N.n and d != i and data[i] != nd:
+            want[d] += data[i]
+    big = max([abs(v) for v in want] + [0])
+    ctx.count("op:upstream_sum(wide:" + np.dtype(dt).name + ")" + ("(nodata)" if nd in data else ""))
+    if big > 2 ** 53:
+        ctx.count("upstream_sum:sums-beyond-2**53")
+    if big >= 2 ** 63:
+        ctx.count("upstream_sum:sums-beyond-2**63")
+    if np.dtype(dt).itemsize < 8 and big >= int(np.iinfo(dt).max) - 1100:
+        ctx.count("upstream_sum:sums-at-range-end(narrow dtype)")
+    ctx.count("upstream_sum:result-dtype-" + ("same" if out.dtype == field.dtype else "differs(observed)"))
+
+    def judge(ans):
+        e = drv_err(ans)
+        if e:
+            return e
+        a = ans[0]
+        fs = []
+        if impl is None:
+            return [{"kind": "spec", "what": name + ": non-integer output"}]
+        only = [i for i in range(N.n) if a["fixed"][i] == 1 and N.ds[i] != N.n]
+        # where the property fixes the value (neither the cell nor its downstream cell is empty) the Lean oracle and
+        # the harness' own sum must agree; the implementation is compared with both
+        bad = [i for i in only if a["spec"][i] != want[i]]
+        if bad:
+            fs.append({"kind": "model", "what": f"{name}: Lean oracle != harness' own exact sum at cells {bad[:6]}"})
+        bad = [i for i in only if impl[i] != want[i]]
+        if bad:
+            fs.append({"kind": "spec", "what": f"{name}: not the exact sum over the direct upstream cells at cells {bad[:6]} "
+                       f"(off by {[impl[i] - want[i] for i in bad[:6]]})", "impl": impl, "expected": want})
+        cmp_eq(fs, impl, a, name, only=only)
+        if impl != a["exact"]:
+            bad = [i for i in range(N.n) if impl[i] != a["exact"][i]]
+            fs.append({"kind": "model", "what": f"{name}: implementation != closed form (flag + later inflows) at cells {bad[:6]}",
+                       "impl": impl, "exact": a["exact"]})
+        return fs
+    ctx.add({"op": "upstream_sum", **N.base, "data": data, "mv": nd, "mv_passed": not default_mv, "dtype": np.dtype(dt).name},
+            [("c14_upstream_sum", {"ds": N.ds, "data": data, "nodata": nd})], judge, nontrivial=N.nontriv)
+
+
 def case_downstream(ctx, rng, N):
+    if rng.random() < 0.4:
+        return case_downstream_wide(ctx, rng, N)
     dt = rng.choice([np.int32, np.float64])
     data = enlarge(ctx, rng, [rng.randint(-5, 20) for _ in range(N.n)], dt, 0)
     out = N.flw.downstream(arr(N, data, dt))
@@ -165,6 +378,8 @@ def case_downstream(ctx, rng, N):
 
 
 def case_upstream_sum(ctx, rng, N):
+    if rng.random() < 0.4:
+        return case_upstream_sum_wide(ctx, rng, N)
     nd = rng.choice([-9999, -1, 0])
     p_nd = rng.choice([0.0, 0.15, 0.3, 0.5])
     dt = rng.choice([np.int32, np.float64])
